@@ -158,9 +158,12 @@ def dlWriteRange (e : Env) : Nat → St → Bytes → Nat × St
 /-! ### multipart.c -/
 
 def hdrPattern : Bytes := "boundary *= *(.*?) *\r".toUTF8.toList
+/-- `escape_regex`: a backslash before every character that is special in a POSIX extended regular expression -/
+def rxSpecial : Bytes := ".[]()*+?{}|^$\\".toUTF8.toList
+def escapeRx (b : Bytes) : Bytes := b.flatMap fun c => if rxSpecial.contains c then [0x5c, c] else [c]
 def partPattern (b : Bytes) : Bytes :=
-  "\r?\n?--".toUTF8.toList ++ b ++ "\r\n.*content-range: *bytes *([0-9]+) *- *([0-9]+) */[0-9]+".toUTF8.toList
-def endPattern (b : Bytes) : Bytes := "\r\n--".toUTF8.toList ++ b ++ "--".toUTF8.toList
+  "\r?\n?--".toUTF8.toList ++ escapeRx b ++ "\r\n.*content-range: *bytes *([0-9]+) *- *([0-9]+) */[0-9]+".toUTF8.toList
+def endPattern (b : Bytes) : Bytes := "\r\n--".toUTF8.toList ++ escapeRx b ++ "--".toUTF8.toList
 
 /-- the C string at the head of a buffer -/
 def cstr (bs : Bytes) : Bytes := bs.takeWhile (· ≠ 0)
@@ -198,14 +201,14 @@ def genRegex (e : Env) (st : St) : Bool × St :=
 def parseNum (s : Bytes) (so eo : Nat) : Nat :=
   ((s.drop so).take (eo - so)).foldl (fun acc c => (acc * 10 + (c.toNat + W64 - 48)) % W64) 0
 
-/-- first `j ≥ i` at which the scan for CRLFCRLF stops: `inl j` = too close to the end, `inr j` = found at `j` -/
-def scanHdr (buf : Bytes) (fuel : Nat) (j : Nat) : Nat ⊕ Nat :=
-  match fuel with
-  | 0 => .inl j
-  | fuel + 1 =>
-    if j + 4 ≥ buf.length then .inl j
-    else if (buf.drop j).take 4 = [13, 10, 13, 10] then .inr j
-    else scanHdr buf fuel (j + 1)
+/-- the scan for CRLFCRLF over the bytes from index `j` on (`bs` = the buffer from `j`): `inl j` = fewer than five
+bytes are left (`j + 4 >= end`), `inr j` = found at `j` with at least one byte following -/
+def scanFrom : Bytes → Nat → Nat ⊕ Nat
+  | a :: b :: c :: d :: e :: rest, j =>
+    if a = 13 ∧ b = 10 ∧ c = 13 ∧ d = 10 then .inr j else scanFrom (b :: c :: d :: e :: rest) (j + 1)
+  | _, j => .inl j
+
+def scanHdr (buf : Bytes) (i : Nat) : Nat ⊕ Nat := scanFrom (buf.drop i) i
 
 /-- the `while(i)` loop of `multipart_extract`; result `false` = `return 0` -/
 def mpLoop (e : Env) : Nat → Bytes → Nat → Nat → St → Bool × St
@@ -226,7 +229,7 @@ def mpLoop (e : Env) : Nat → Bytes → Nat → Nat → St → Bool × St
       let size := l - hs
       (true, if size > 0 then { st with mp := { st.mp with buffer := some (buf.drop hs) } } else st)
     else
-      match scanHdr buf (l + 1) i with
+      match scanHdr buf i with
       | .inl j => mpLoop e fuel buf (j + 4) hs st
       | .inr j =>
         let buf := buf.set (j + 3) 0
